@@ -552,16 +552,28 @@ pub fn rule_from_ident<'a>(cddl: &'a CDDL, ident: &Identifier) -> Option<&'a Rul
 
 /// Find text values from a given identifier
 pub fn text_value_from_ident<'a>(cddl: &'a CDDL, ident: &Identifier) -> Option<&'a Type2<'a>> {
-  cddl.rules.iter().find_map(|r| match r {
-    Rule::Type { rule, .. } if rule.name == *ident => {
-      rule.value.type_choices.iter().find_map(|tc| {
+  text_value_from_open_ident(cddl, ident, &mut Vec::new())
+}
+
+/// `open` holds the indexes of the rules being searched: a rule that is reached
+/// again while it is still open yields nothing, so cyclic rule references
+/// (`a = b`, `b = a`) terminate.
+fn text_value_from_open_ident<'a>(
+  cddl: &'a CDDL,
+  ident: &Identifier,
+  open: &mut Vec<usize>,
+) -> Option<&'a Type2<'a>> {
+  cddl.rules.iter().enumerate().find_map(|(idx, r)| match r {
+    Rule::Type { rule, .. } if rule.name == *ident && !open.contains(&idx) => {
+      open.push(idx);
+      let found = rule.value.type_choices.iter().find_map(|tc| {
         if tc.type1.operator.is_none() {
           match &tc.type1.type2 {
             Type2::TextValue { .. } | Type2::UTF8ByteString { .. } => Some(&tc.type1.type2),
-            Type2::Typename { ident, .. } => text_value_from_ident(cddl, ident),
+            Type2::Typename { ident, .. } => text_value_from_open_ident(cddl, ident, open),
             Type2::ParenthesizedType { pt, .. } => pt.type_choices.iter().find_map(|tc| {
               if tc.type1.operator.is_none() {
-                text_value_from_type2(cddl, &tc.type1.type2)
+                text_value_from_open_type2(cddl, &tc.type1.type2, open)
               } else {
                 None
               }
@@ -571,7 +583,9 @@ pub fn text_value_from_ident<'a>(cddl: &'a CDDL, ident: &Identifier) -> Option<&
         } else {
           None
         }
-      })
+      });
+      open.pop();
+      found
     }
     _ => None,
   })
@@ -579,9 +593,17 @@ pub fn text_value_from_ident<'a>(cddl: &'a CDDL, ident: &Identifier) -> Option<&
 
 /// Find text values from a given Type2
 pub fn text_value_from_type2<'a>(cddl: &'a CDDL, t2: &'a Type2<'a>) -> Option<&'a Type2<'a>> {
+  text_value_from_open_type2(cddl, t2, &mut Vec::new())
+}
+
+fn text_value_from_open_type2<'a>(
+  cddl: &'a CDDL,
+  t2: &'a Type2<'a>,
+  open: &mut Vec<usize>,
+) -> Option<&'a Type2<'a>> {
   match t2 {
     Type2::TextValue { .. } | Type2::UTF8ByteString { .. } => Some(t2),
-    Type2::Typename { ident, .. } => text_value_from_ident(cddl, ident),
+    Type2::Typename { ident, .. } => text_value_from_open_ident(cddl, ident, open),
     Type2::Array { group, .. } => group.group_choices.iter().find_map(|gc| {
       if gc.group_entries.len() == 2 {
         if let Some(ge) = gc.group_entries.first() {
@@ -589,7 +611,7 @@ pub fn text_value_from_type2<'a>(cddl: &'a CDDL, t2: &'a Type2<'a>) -> Option<&'
             if ge.member_key.is_none() {
               ge.entry_type.type_choices.iter().find_map(|tc| {
                 if tc.type1.operator.is_none() {
-                  text_value_from_type2(cddl, &tc.type1.type2)
+                  text_value_from_open_type2(cddl, &tc.type1.type2, open)
                 } else {
                   None
                 }
@@ -609,7 +631,7 @@ pub fn text_value_from_type2<'a>(cddl: &'a CDDL, t2: &'a Type2<'a>) -> Option<&'
     }),
     Type2::ParenthesizedType { pt, .. } => pt.type_choices.iter().find_map(|tc| {
       if tc.type1.operator.is_none() {
-        text_value_from_type2(cddl, &tc.type1.type2)
+        text_value_from_open_type2(cddl, &tc.type1.type2, open)
       } else {
         None
       }
